@@ -159,6 +159,13 @@ func corpusCases(g *vlib.Rng) []Case {
 	for _, ps := range [][2][]byte{{one, one}, {nm1, one}, {nm1, nm1}, {ff, ff}, {ff, one}, {one, new(big.Int).Sub(refN, big.NewInt(2)).FillBytes(make([]byte, 32))}, {make([]byte, 32), one}} {
 		out = append(out, Case{Kind: "dnpriv", A: []string{hx(ps[0]), hx(ps[1])}})
 	}
+	// operands >= n ("IL >= n" of the property's quantifier; a parent key >= n is not refused by the code either)
+	// with sums on both sides of n, 2n and 3n: one reduction step is not enough from 2n on
+	nb := func(d int64) []byte { return new(big.Int).Add(refN, big.NewInt(d)).FillBytes(make([]byte, 32)) }
+	for _, ps := range [][2][]byte{{nb(0), nb(0)}, {nb(1), nb(-1)}, {nb(-1), nb(1)}, {nb(3), nb(-4)}, {nb(-4), nb(3)}, {nb(9), nb(-2)},
+		{nb(2), nb(11)}, {ff, nm1}, {nm1, ff}, {ff, nb(0)}, {nb(0), ff}, {ff, nb(5)}, {nb(0), one}, {one, nb(0)}, {nb(0), make([]byte, 32)}} {
+		out = append(out, Case{Kind: "dnpriv", A: []string{hx(ps[0]), hx(ps[1])}})
+	}
 	G := refPub(one)
 	out = append(out, Case{Kind: "dnpub", A: []string{hx(G), hx(one)}})                         // doubling
 	out = append(out, Case{Kind: "dnpub", A: []string{hx(G), hx(make([]byte, 32))}})            // + 0·G
@@ -168,6 +175,15 @@ func corpusCases(g *vlib.Rng) []Case {
 	for _, v := range []int{0x80, 0xef, 0xb0, 0, 255} {
 		out = append(out, Case{Kind: "wif", A: []string{hx(one), fmt.Sprint(v), "1"}})
 		out = append(out, Case{Kind: "wif", A: []string{hx(nm1), fmt.Sprint(v), "0"}})
+	}
+	// witness of the fixed finding wif-flag-byte-unchecked: 80 || 00..01 || 00 with a valid checksum was imported as
+	// the uncompressed key 1 (whose export is 5HpHagT65TZz...); plus flag bytes 02/ff and the testnet version
+	out = append(out, Case{Kind: "wifdec", A: []string{hx([]byte("KwDiBf89QgGbjEhKnhXJuH7LrciVrZi3qYjgd9M7rFU73sMvhksF"))}})
+	out = append(out, Case{Kind: "wifdec", A: []string{hx([]byte("5HpHagT65TZzG1PH3CSu63k8DbpvD8s5ip4nEB3kEsreAnchuDf"))}})
+	for _, v := range []byte{0x80, 0xef} {
+		for _, f := range []byte{0, 1, 2, 0xff} {
+			out = append(out, Case{Kind: "wifdec", A: []string{hx([]byte(refB58Check(append(append([]byte{v}, nm1...), f))))}})
+		}
 	}
 	// wallet corpus: the configurations of wallet_test.go + boundary ones
 	pw := hx([]byte("qwerty12345"))
@@ -196,6 +212,19 @@ func corpusCases(g *vlib.Rng) []Case {
 		{Type: 4, KeyCnt: 1, AType: "p2kh", File: pw, HdPath: "m/0''", HdSubs: 1},
 		{Type: 2, KeyCnt: 1, AType: "p2kh", File: pw, HdPath: "m/0'", HdSubs: 1},
 		{Type: 3, KeyCnt: 2, AType: "p2kh", File: pw, HdPath: "m/0'", HdSubs: 1, Scrypt: 2},
+		// the password is typed (no seed file); with and without a seed= prefix; saved (y), declined (n), -1, -xprv, -p;
+		// re-entered differently; nothing typed. After "y" the next run reads the saved file: same keys.
+		{Type: 4, KeyCnt: 2, AType: "p2kh", File: pw, HdPath: "m/0'/0", HdSubs: 1, Seed: hx([]byte("cfg-PREFIX:")), Ask: 1},
+		{Type: 4, KeyCnt: 2, AType: "bech32", File: pw, HdPath: "m/84'/0'/0'/0/0", HdSubs: 2, Bip39: 12, Seed: hx([]byte("S")), Ask: 2, Term: "0d0a"},
+		{Type: 3, KeyCnt: 2, AType: "p2kh", File: pw, HdPath: "m/0'", HdSubs: 1, Seed: hx([]byte("pre fix")), Ask: 1, Term: "090a"},
+		{Type: 4, KeyCnt: 1, AType: "segwit", File: pw, HdPath: "m/0'/0", HdSubs: 1, Seed: hx([]byte("zz")), Ask: 3},
+		{Type: 4, KeyCnt: 1, AType: "tap", File: pw, HdPath: "m/0'/0", HdSubs: 1, Seed: hx([]byte("zz")), Ask: 4, Testnet: true},
+		{Type: 4, KeyCnt: 1, AType: "p2kh", File: pw, HdPath: "m/0'/0", HdSubs: 1, Seed: hx([]byte("zz")), Ask: 5},
+		{Type: 4, KeyCnt: 1, AType: "p2kh", File: pw, HdPath: "m/0'/0", HdSubs: 1, Ask: 1},
+		{Type: 4, KeyCnt: 1, AType: "p2kh", File: pw, HdPath: "m/0'/0", HdSubs: 1, Seed: hx([]byte("zz")), Ask: 1, Second: hx([]byte("qwerty12346"))},
+		{Type: 4, KeyCnt: 1, AType: "p2kh", File: "", HdPath: "m/0'/0", HdSubs: 1, Seed: hx([]byte("zz")), Ask: 1},
+		{Type: 4, KeyCnt: 1, AType: "p2kh", File: pw, HdPath: "m/0''", HdSubs: 1, Seed: hx([]byte("zz")), Ask: 1},
+		{Type: 4, KeyCnt: 1, AType: "p2kh", File: pw, HdPath: "m/0'/0", HdSubs: 1, Seed: hx([]byte("zz")), Ask: 1, Scrypt: 1, Bip39: 15},
 		{Type: 3, KeyCnt: 1, AType: "p2kh", File: hx(append([]byte{0xff, 0x00, 0x80, 0xc3, 0xa9, 0x0a}, make([]byte, 1100)...)), HdPath: "m/0'", HdSubs: 1},
 	} {
 		w := w
@@ -459,6 +488,51 @@ func genWallets(g *vlib.Rng, n int) []Case {
 		if w.Stdin && len(pass) > 1024 {
 			pass = pass[:1024]
 		}
+		if g.Chance(1, 5) {
+			// the password is TYPED (no seed file, no -stdin): one line, so no line feed inside, and no trailing
+			// control byte (sys.getline drops those - they come back as the typed terminator instead)
+			w.Stdin = false
+			w.Ask = g.Pick(1, 1, 2, 3, 4, 5)
+			if w.Ask == 4 && w.Type != 4 {
+				w.Ask = 1
+			}
+			if len(pass) > 200 {
+				pass = pass[:200]
+			}
+			for j := range pass {
+				if pass[j] == '\n' {
+					pass[j] = ' '
+				}
+			}
+			for len(pass) > 0 && pass[len(pass)-1] < ' ' {
+				pass = pass[:len(pass)-1]
+			}
+			if len(pass) == 0 && !g.Chance(1, 3) {
+				pass = []byte("x")
+			}
+			w.Term = []string{"0a", "0a", "0d0a", "090a", "000a", "1b0d0a"}[g.Intn(6)]
+			if w.Ask != 2 && g.Chance(1, 8) {
+				o := append([]byte{}, pass...)
+				switch g.Intn(3) {
+				case 0:
+					o = append(o, '!')
+				case 1:
+					if len(o) > 0 {
+						o[g.Intn(len(o))] ^= 0x20
+					}
+				case 2:
+					o = append([]byte(" "), o...)
+				}
+				w.Second = hx(o)
+			}
+			if w.Seed == "" && w.Bip39 != -1 && g.Chance(3, 4) {
+				sd := g.Bytes(1 + g.Intn(10))
+				for j := range sd {
+					sd[j] = byte(33 + int(sd[j])%94)
+				}
+				w.Seed = hx(sd)
+			}
+		}
 		w.File = hx(pass)
 		out = append(out, Case{Kind: "wallet", W: w})
 	}
@@ -471,7 +545,7 @@ func main() {
 		"SHA-256, SHA-512, RIPEMD-160, HMAC, PBKDF2 are modelled, not verified (Lean implementations compared with Go's on every run); scrypt is opaque (computed by the repository's package and handed to the model)",
 		"the elliptic curve in model and theorems is the reference curve of Base/Secp.lean; gocoin's limb arithmetic is tied to it by this run only (and is the subject of C08)",
 		"the reference-curve facts used by pub_commutes / ckd_pub_spec / derive_is_bip32 ((a+k mod n)G = aG + kG, parse∘serP = id on curve points, jG finite for 0<j<n) are no longer assumed: they are derived in Proofs/C14Curve.lean from C03's reference_curve_group_law / generator_order / parsePubkey_ser33 (Mathlib's Weierstrass group law; p, n prime by C08_Primes); serialize/WIF round trips import C15's Base58 decode∘encode = id",
-		"outside the model: private keys ≡ 0 mod n and sums equal to the point at infinity (gocoin serialises stale coordinates there), public keys with x ≥ p or x off the curve, non-ASCII white space in mnemonics, interactive password entry, .others imports, the -p39 prompt",
+		"outside the model: private keys ≡ 0 mod n and sums equal to the point at infinity (gocoin serialises stale coordinates there), public keys with x ≥ p or x off the curve, non-ASCII white space in mnemonics, typed passwords longer than one 1024-byte terminal read, .others imports, the -p39 prompt, -encrypt/-decrypt",
 	}
 	r.Extra["observations"] = []string{
 		"HDWallet.Child never skips an index: BIP32 says I_L >= n or k_i = 0 makes index i invalid; Child reduces mod n and returns a key (theorem child_priv_never_skips; probability about 2^-127 per index; ckd_priv_spec / ckd_pub_spec are stated under exactly the guard 'CKD is defined')",
@@ -517,6 +591,42 @@ func main() {
 			t := new(big.Int).Sub(refN, new(big.Int).SetBytes(p))
 			t.Add(t, big.NewInt(int64(gd.Intn(5)-2))).Mod(t, new(big.Int).Lsh(big.NewInt(1), 256))
 			s = t.FillBytes(make([]byte, 32))
+		}
+		if gd.Chance(1, 4) {
+			// the region above n: IL / key >= n (2^256 - n is about 2^128.3, so random 256-bit values never get there)
+			// and sums around 2n, where (p+s) mod n needs two subtractions
+			two256 := new(big.Int).Lsh(big.NewInt(1), 256)
+			top := func() *big.Int { // uniform-ish in [n-4, 2^256)
+				span := new(big.Int).Sub(two256, refN)
+				v := new(big.Int).Mod(new(big.Int).SetBytes(gd.Bytes(20)), span)
+				if gd.Chance(1, 3) {
+					v = big.NewInt(int64(gd.Intn(9)))
+				} else if gd.Chance(1, 3) {
+					v.Sub(span, big.NewInt(int64(1+gd.Intn(9))))
+				}
+				return v.Add(v, refN).Sub(v, big.NewInt(4))
+			}
+			pv := top()
+			sv := top()
+			if gd.Chance(1, 2) { // sum within 2 of 2n when that fits into 256 bits
+				t := new(big.Int).Lsh(refN, 1)
+				t.Sub(t, pv).Add(t, big.NewInt(int64(gd.Intn(5)-2)))
+				if t.Sign() >= 0 && t.Cmp(two256) < 0 {
+					sv = t
+				}
+			}
+			if pv.Cmp(two256) >= 0 {
+				pv.Sub(two256, big.NewInt(1))
+			}
+			if sv.Cmp(two256) >= 0 {
+				sv.Sub(two256, big.NewInt(1))
+			}
+			p, s = pv.FillBytes(make([]byte, 32)), sv.FillBytes(make([]byte, 32))
+			if gd.Bool() {
+				p, s = s, p
+			}
+			cases = append(cases, Case{Kind: "dnpriv", A: []string{hx(p), hx(s)}})
+			continue
 		}
 		if gd.Chance(1, 3) {
 			cases = append(cases, Case{Kind: "dnpub", A: []string{hx(refPub(p)), hx(s)}})
